@@ -31,6 +31,7 @@ type regOp struct {
 	H    int    `json:"h,omitempty"`
 	K    string `json:"k,omitempty"`
 	V    string `json:"v,omitempty"`
+	Race *regOp `json:"race,omitempty"` // close: an open that runs inside the close, after its unregisterBucket
 }
 
 type regInput struct {
@@ -88,29 +89,51 @@ func execReg(in regInput, scratch string) (Case, error) {
 				done <- nil
 			}
 		}()
+		doOpen := func(op regOp) Term {
+			mode := map[string]rosmar.OpenMode{"CreateOrOpen": rosmar.CreateOrOpen, "CreateNew": rosmar.CreateNew, "ReOpenExisting": rosmar.ReOpenExisting}[op.Mode]
+			url := rosmar.InMemoryURL
+			if !op.Mem {
+				url = "rosmar://" + filepath.Join(dir, regUrls[op.Url])
+			}
+			b, e := rosmar.OpenBucket(url, realName(op.Name), mode)
+			if e != nil {
+				cells["open|"+op.Mode+"|"+regErr(e, op.Mode)] = true
+				return C("RRErr", C(regErr(e, op.Mode)))
+			}
+			ds := b.DefaultDataStore()
+			handles = append(handles, regHandle{b, ds})
+			cells[fmt.Sprintf("open|%s|mem=%v|ok", op.Mode, op.Mem)] = true
+			return C("RROpened", N(uint64(len(handles)-1)))
+		}
 		for _, op := range in.Ops {
 			var opT, respT Term
 			switch op.Kind {
 			case "open":
-				mode := map[string]rosmar.OpenMode{"CreateOrOpen": rosmar.CreateOrOpen, "CreateNew": rosmar.CreateNew, "ReOpenExisting": rosmar.ReOpenExisting}[op.Mode]
-				url := rosmar.InMemoryURL
-				if !op.Mem {
-					url = "rosmar://" + filepath.Join(dir, regUrls[op.Url])
-				}
 				opT = C("ROpen", B(op.Mem), S(regUrls[op.Url]), S(regNames[op.Name]), C(op.Mode))
-				b, e := rosmar.OpenBucket(url, realName(op.Name), mode)
-				if e != nil {
-					respT = C("RRErr", C(regErr(e, op.Mode)))
-					cells["open|"+op.Mode+"|"+regErr(e, op.Mode)] = true
-				} else {
-					ds := b.DefaultDataStore()
-					handles = append(handles, regHandle{b, ds})
-					respT = C("RROpened", N(uint64(len(handles)-1)))
-					cells[fmt.Sprintf("open|%s|mem=%v|ok", op.Mode, op.Mem)] = true
-				}
+				respT = doOpen(op)
 			case "close":
 				opT = C("RClose", N(uint64(op.H)))
-				if op.H < len(handles) {
+				if op.Race != nil && op.Race.Kind == "open" {
+					// the racing open runs at the hook point inside Close, or right after it if Close returns before
+					// reaching it (a handle that is closed already)
+					ro := *op.Race
+					opT = C("RCloseOpen", N(uint64(op.H)), B(ro.Mem), S(regUrls[ro.Url]), S(regNames[ro.Name]), C(ro.Mode))
+					fired := false
+					if op.H < len(handles) {
+						rosmar.VerifSetHook(func(point string, args ...any) {
+							if point == "close.unregistered" && !fired {
+								fired = true
+								respT = doOpen(ro)
+							}
+						})
+						handles[op.H].b.Close(ctxBg)
+						rosmar.VerifSetHook(nil)
+					}
+					if !fired {
+						respT = doOpen(ro)
+					}
+					cells[fmt.Sprintf("close-race|inwindow=%v", fired)] = true
+				} else if op.H < len(handles) {
 					handles[op.H].b.Close(ctxBg)
 					respT = C("RROk")
 				} else {
@@ -250,8 +273,26 @@ func genReg(r *rand.Rand) regInput {
 			if h < len(hs) && hs[h].reopenedSince {
 				continue // a stale handle (closed or deleted) whose bucket name is in use again: outside the explored inputs
 			}
-			in.Ops = append(in.Ops, regOp{Kind: "close", H: h})
+			cl := regOp{Kind: "close", H: h}
+			if r.Intn(3) == 0 && h < len(hs) {
+				// an open of the same name (mostly) racing with this close
+				name := hs[h].name
+				if r.Intn(4) == 0 {
+					name = r.Intn(2)
+				}
+				cl.Race = &regOp{Kind: "open", Mem: r.Intn(3) == 0, Url: name * 2, Name: name, Mode: pick(r, []string{"CreateOrOpen", "CreateOrOpen", "CreateNew", "ReOpenExisting"})}
+			}
+			in.Ops = append(in.Ops, cl)
 			hs[h].closed = true
+			if cl.Race != nil {
+				hs = append(hs, hstate{name: cl.Race.Name})
+				for j := range hs[:len(hs)-1] {
+					if hs[j].name == cl.Race.Name && (hs[j].dead || hs[j].closed) {
+						hs[j].reopenedSince = true
+					}
+				}
+				opened++
+			}
 		case x < 7:
 			h := r.Intn(opened)
 			if h < len(hs) && (hs[h].dead || hs[h].reopenedSince) {
